@@ -84,7 +84,7 @@ ArrPool(d) ==
   Vals(K_minItems, {N1, N2}) \cup Vals(K_maxItems, {N0, N1, N2}) \cup Vals(K_uniqueItems, {JTrue, JFalse})
   \cup Vals(K_items, Leaves(d) \cup { Arr(<<a>>) : a \in Leaves2(d) } \cup { Arr(<<a, b>>) : a, b \in Leaves2(d) }
                      \cup {Arr(<<>>)})
-  \cup Vals(K_additionalItems, {JFalse, JTrue, TInt, Never(d)})
+  \cup Vals(K_additionalItems, {JFalse, JTrue, TInt, Never(d), EmptyObj})
   \cup (IF d >= 6 THEN Vals(K_contains, Leaves(d)) ELSE {})
 
 ReqB == Obj1(K_minProperties, N2)
@@ -102,7 +102,7 @@ ObjPool(d) ==
                                                 Obj1(S_a, Obj2(K_required, JTrue, K_type, Str(T_string))) } ELSE {}))
   \cup Vals(K_patternProperties, { Obj1(p, l) : p \in PatTexts, l \in Leaves2(d) }
                                  \cup { Obj2(<<97>>, TInt, <<98, 124, 99>>, Min2) })
-  \cup Vals(K_additionalProperties, {JFalse, JTrue, TInt, Never(d), Min2})
+  \cup Vals(K_additionalProperties, {JFalse, JTrue, TInt, Never(d), Min2, EmptyObj})
   \cup (IF d >= 6 THEN Vals(K_propertyNames, { Obj1(K_maxLength, N1), Obj1(K_pattern, Str(<<94, 97>>)), JFalse, JTrue,
                                                Obj1(K_enum, Arr(<<Str(S_a), Str(S_b)>>)) }) ELSE {})
   \cup Vals(K_dependencies, { Obj1(S_a, Arr(<<Str(S_b)>>)), Obj1(S_a, Arr(<<Str(S_b), Str(S_c)>>)),
